@@ -20,6 +20,7 @@ import (
 	"path/filepath"
 	"sort"
 	"strings"
+	"sync"
 
 	"golang.org/x/tools/go/packages"
 )
@@ -144,6 +145,9 @@ type Result struct {
 
 // Overlay computes the folded sources. env is the environment of the go command (GOOS/GOARCH of the target).
 func Overlay(repo, modPath string, env []string, inv map[string]bool) (*Result, error) {
+	// one fold at a time: the targets of a run are loaded concurrently, the folder keeps its state in the package
+	foldMu.Lock()
+	defer foldMu.Unlock()
 	res := &Result{Overlay: map[string][]byte{}}
 	if inv == nil || len(NewFunctions(repo, inv)) == 0 {
 		return res, nil
@@ -223,6 +227,8 @@ type edit struct {
 }
 
 var counter int
+
+var foldMu sync.Mutex
 
 func foldPackage(repo string, pk *packages.Package, inv map[string]bool, res *Result, keptWhy map[string]string) (int, error) {
 	fset := pk.Fset
